@@ -353,6 +353,85 @@ def deep_log(ctx: Ctx, entry_msg, null_msg, rounds: int) -> None:
         kimpl.append([(k, unts(v)) for k, v in f._map.items()])
     ctx.extra["clean_history_cases"] = (kcases, kimpl)
 
+    # (D4) the REAL get_faultlog() coroutine against the simulated controller: every reply also reaches handle_msg through the
+    #      dispatcher; a new entry is logged and announced after the k-th reply, or the k-th exchange fails and announcements follow
+    import asyncio  # noqa: PLC0415
+
+    from ramses_tx import exceptions as texc  # noqa: PLC0415
+
+    null_payload = "000000B0000000000000000000007FFFFF7000000000"
+
+    def run_get(f, log, hist, nxt, inject_after=None, fail_at=None):
+        state = {"k": 0, "nxt": nxt}
+
+        class Gwy:
+            async def async_send_cmd(self, cmd, **kw):
+                i = int(cmd.payload[4:6], 16)
+                state["k"] += 1
+                if fail_at is not None and state["k"] == fail_at:
+                    hist.append(("RQ", i, "fails"))
+                    raise texc.ProtocolSendFailed("scripted: no reply")
+                if i < len(log):
+                    m = entry_msg("RP", i, log[i])
+                    f.handle_msg(m)                      # the dispatcher delivers the reply too
+                    hist.append(("RP", i, log[i]))
+                    pkt = m._pkt
+                else:
+                    pkt = null_msg(i)._pkt
+                    hist.append(("RP", i, None))
+                if inject_after is not None and state["k"] == inject_after:
+                    new_entry(log, state["nxt"])
+                    f.handle_msg(entry_msg(" I", 0, state["nxt"]))     # announced while the read-through is under way
+                    hist.append(("new-entry", "announced during the read-through"))
+                    state["nxt"] += 1
+                return pkt
+
+        f._gwy = Gwy()
+        try:
+            asyncio.run(f.get_faultlog(limit=64))
+            hist.append(("get_faultlog", "completed"))
+            ok = True
+        except texc.ProtocolSendFailed:
+            hist.append(("get_faultlog", "raised ProtocolSendFailed"))
+            ok = False
+        return ok, state["nxt"]
+
+    for trial in range(rounds * 2):
+        f, log, hist, nxt = FaultLog(_Tcs()), [], [], 1
+        for _ in range(rng.randint(2, 9)):
+            new_entry(log, nxt)
+            nxt += 1
+        hist.append(("controller-log-filled", len(log)))
+        mode = rng.choice(("inject", "inject", "fail"))
+        k = rng.randint(1, len(log))
+        if rng.random() < 0.5:                     # a complete read-through first
+            _, nxt = run_get(f, log, hist, nxt)
+        if mode == "inject":
+            ok, nxt = run_get(f, log, hist, nxt, inject_after=k)
+            ctx.case(("get-faultlog", trial, mode, k), True, "get_faultlog:announcement-during")
+            if ok:
+                _, nxt = run_get(f, log, hist, nxt)          # ... and one undisturbed read-through settles any index shift
+                check_equal(f, log, hist, "read-through-with-announcement-mismatch",
+                            "a new entry was announced during a read-through; after that read-through and another, undisturbed one the view differs from the controller's log")
+                if view_of(f).get(0) != log[0]:
+                    ctx.violation("announcement-during-read-through-lost", "the entry announced while a read-through was under way is not the view's newest entry",
+                                  {"history": list(hist), "view": sorted(view_of(f).items())[:6], "controller": log[:6]}, "history")
+        else:
+            ok, nxt = run_get(f, log, hist, nxt, fail_at=k)
+            ctx.case(("get-faultlog", trial, mode, k), True, "get_faultlog:failed")
+            before = dict(view_of(f))
+            for _ in range(2):
+                new_entry(log, nxt)
+                f.handle_msg(entry_msg(" I", 0, nxt))
+                hist.append(("new-entry", "announced"))
+                nxt += 1
+            if view_of(f).get(0) != log[0]:
+                ctx.violation("announcement-after-failed-read-through-ignored", "after a read-through that failed part-way, a delivered announcement does not become the view's newest entry",
+                              {"history": list(hist), "view_before": sorted(before.items())[:6], "view": sorted(view_of(f).items())[:6], "controller": log[:6]}, "history")
+            _, nxt = run_get(f, log, hist, nxt)
+            check_equal(f, log, hist, "read-through-after-failure-mismatch", "after a failed read-through, announcements and a complete read-through the view differs from the controller's log")
+        check_bound(f, hist)
+
     # (D1) arbitrary histories on a (nearly) full log: losses, single replies near the end -- no index beyond the log, views total
     for r in range(rounds):
         f, log, hist, nxt = FaultLog(_Tcs()), [], [], 1
